@@ -283,3 +283,95 @@ Proof.
   rewrite replace_char_absent by (apply quote_gen_no_char; reflexivity).
   apply unquote_quote_gen; [reflexivity | exact H].
 Qed.
+
+(* ================================================================== *)
+(* _unquote_impl as the source spells it: split on '%', then item[:2]   *)
+(* ================================================================== *)
+
+(*  for item in bits[1:]:
+        try:    append(_hextobyte[item[:2]]); append(item[2:])
+        except KeyError: append(b'%'); append(item)                      *)
+Definition unq_item (item : list N) : list N :=
+  match item with
+  | h1 :: h2 :: r =>
+    match hexval h1, hexval h2 with
+    | Some a, Some b => (16 * a + b) :: r
+    | _, _ => 37 :: item
+    end
+  | _ => 37 :: item
+  end.
+
+(*  bits = string.split(b'%'); if len(bits) == 1: return string
+    res = bytearray(bits[0]); for item in bits[1:]: ...                  *)
+Definition unquote_to_bytes_split (s : list N) : list N :=
+  match split_all N.eqb 37 s with
+  | [] => s
+  | b0 :: items => b0 ++ flat_map unq_item items
+  end.
+
+Lemma split_all_nonempty c (s : str) : split_all N.eqb c s <> [].
+Proof.
+  induction s as [|x s IH]; cbn [split_all]; [discriminate|].
+  destruct (N.eqb x c); [discriminate|]. destruct (split_all N.eqb c s); [congruence | discriminate].
+Qed.
+
+Lemma hexval_not_pct : hexval 37 = None.
+Proof. reflexivity. Qed.
+
+Lemma hexval_some_not_pct h a : hexval h = Some a -> N.eqb h 37 = false.
+Proof. intros H. destruct (N.eqb_spec h 37) as [->|]; [discriminate | reflexivity]. Qed.
+
+(* the in-place recursion of [unquote_to_bytes] and the split formulation agree *)
+Theorem unquote_to_bytes_split_eq s : unquote_to_bytes s = unquote_to_bytes_split s.
+Proof.
+  (* strong induction on the length, because an escape consumes three characters *)
+  remember (length s) as n eqn:Hn. revert s Hn.
+  induction n as [n IH] using lt_wf_ind. intros s Hn.
+  destruct s as [|c r]; [reflexivity|].
+  unfold unquote_to_bytes_split. cbn [unquote_to_bytes split_all].
+  destruct (N.eqb_spec c 37) as [->|Hc].
+  - (* '%' *)
+    cbn [app].
+    assert (Hr : unquote_to_bytes r = unquote_to_bytes_split r)
+      by (apply (IH (length r)); [subst n; cbn; lia | reflexivity]).
+    unfold unquote_to_bytes_split in Hr.
+    pose proof (split_all_nonempty 37 r) as Hne.
+    destruct r as [|h1 r1].
+    + reflexivity.
+    + destruct r1 as [|h2 r2].
+      * (* one character behind '%' *)
+        rewrite Hr. cbn [split_all].
+        destruct (N.eqb h1 37); reflexivity.
+      * destruct (hexval h1) as [a|] eqn:E1.
+        -- destruct (hexval h2) as [b|] eqn:E2.
+           ++ (* a valid escape *)
+              assert (Hr2 : unquote_to_bytes r2 = unquote_to_bytes_split r2)
+                by (apply (IH (length r2)); [subst n; cbn; lia | reflexivity]).
+              unfold unquote_to_bytes_split in Hr2. rewrite Hr2.
+              cbn [split_all]. rewrite (hexval_some_not_pct _ _ E1), (hexval_some_not_pct _ _ E2).
+              pose proof (split_all_nonempty 37 r2) as Hne2.
+              destruct (split_all N.eqb 37 r2) as [|h t]; [congruence|].
+              cbn [flat_map unq_item]. rewrite E1, E2. reflexivity.
+           ++ (* second character is not a hex digit *)
+              rewrite Hr. cbn [split_all]. rewrite (hexval_some_not_pct _ _ E1).
+              destruct (N.eqb_spec h2 37) as [->|H2].
+              ** cbn [flat_map unq_item app]. reflexivity.
+              ** pose proof (split_all_nonempty 37 r2) as Hne2.
+                 destruct (split_all N.eqb 37 r2) as [|h t]; [congruence|].
+                 cbn [flat_map unq_item]. rewrite E1, E2. reflexivity.
+        -- (* first character is not a hex digit *)
+           rewrite Hr. cbn [split_all].
+           destruct (N.eqb_spec h1 37) as [->|H1].
+           ++ cbn [flat_map unq_item app]. reflexivity.
+           ++ destruct (N.eqb_spec h2 37) as [->|H2].
+              ** cbn [flat_map unq_item app]. reflexivity.
+              ** pose proof (split_all_nonempty 37 r2) as Hne2.
+                 destruct (split_all N.eqb 37 r2) as [|h t]; [congruence|].
+                 cbn [flat_map unq_item]. rewrite E1. reflexivity.
+  - (* ordinary character *)
+    assert (Hr : unquote_to_bytes r = unquote_to_bytes_split r)
+      by (apply (IH (length r)); [subst n; cbn; lia | reflexivity]).
+    unfold unquote_to_bytes_split in Hr. rewrite Hr.
+    pose proof (split_all_nonempty 37 r) as Hne.
+    destruct (split_all N.eqb 37 r) as [|h t]; [congruence | reflexivity].
+Qed.
